@@ -56,7 +56,8 @@ class C04(Check):
         "four canary threads oversleep by > 0.2 s (threads of this machine were observed to stall for 0.4-0.9 s under load); (c) a scripted probe "
         "(script=wakeup; F-C04a, fixed by 31ee201): with max_concurrent_checks=1, A is paused while its command runs and B is made due; when A's "
         "helper finishes, the freed slot must wake the scheduler for B at once: the MEDIAN over 12 repetitions of the delay must be < 0.3 s "
-        "(before the fix: 0.42 s, after: ~0.1 ms), which is robust against single stalls; offered load of the random scenarios is kept below "
+        "(before the fix: 0.42 s, after: ~0.1 ms), which is robust against single stalls; (d) the same probe with A's command being a plugin-like "
+        "process (script=wakeup_async): the slot is freed by the finished process, which does not wake the scheduler when A is not idle - known finding F-C04b; offered load of the random scenarios is kept below "
         "~40 % of max_concurrent_checks",
         "at most one harness operation per checkable is in flight at a time (operations on different checkables, helpers and the scheduler run concurrently)",
         "check commands either deliver their result from inside the command function (or throw), or behave like PluginCheckTask: hand the work to a "
@@ -113,6 +114,14 @@ class C04(Check):
                     ctx = ctx[-8:]
         return ctx
 
+    def matches_known(self, entry, finding):
+        if entry.get("classifier") == "c04_no_wakeup_when_plugin_process_finished":
+            # narrow: only the scripted asynchronous wake-up probe (script=wakeup_async), whose only silent slot releases are
+            # finished plugin processes of a paused checkable; the helper variant (F-C04a) and every other clause still fail
+            return (finding.kind == "spec" and finding.what == "spec:C04:liveness_wakeup_when_process_finished"
+                    and any("script=wakeup_async" in l for l in finding.case_lines[:1]))
+        return False
+
     def _reproduce(self, harness, driver, case, prefix, tries):
         ops = [l for l in case if l.startswith(("C ", "U "))]
         f = self.work("shrink.ops")
@@ -144,7 +153,7 @@ class C04(Check):
             case = self._context(save, int(kv["line"]), kv.get("cid", "0"))
             # arithmetic lines replay deterministically; scenarios are re-run with the same seed (threads: best effort)
             arith = case[0].split()[2:3] == ["arith"]
-            if spec and what == "liveness_wakeup_when_slot_freed":
+            if spec and what in ("liveness_wakeup_when_slot_freed", "liveness_wakeup_when_process_finished"):
                 # context = the scheduler's and the helpers' sections just before the late dispatch (all checkables)
                 case = case[:1] + self._sections_before(save, int(kv["line"]))
             tries = 0 if (spec and what == "liveness_overdue") else (1 if arith else 2)
@@ -192,7 +201,7 @@ class C04(Check):
         res.exhaustive = False
         res.rule = ("corpus/C04/*.ops, then from one PRNG seeded by VERIF_SEED: 40 000 (300 000 thorough) UpdateNextCheck comparisons under the "
                     "virtual clock (now small / medium / around 1.7e9 s, intervals <= 1 s, = 1 s, just above, whole seconds, minutes, arbitrary; "
-                    "offsets 0 .. 2^31; hard and soft-with-result state) and 15 (24) real-time scenarios of 5 s (75 s) plus 1 (3) scripted wake-up probes, 5 (6) at a time, one process "
+                    "offsets 0 .. 2^31; hard and soft-with-result state) and 15 (24) real-time scenarios of 5 s (75 s) plus 2 (6) scripted wake-up probes (helper / plugin-process variant), 5 (6) at a time, one process "
                     "each: 5-300 hosts plus up to n/4 created at run time, max_concurrent_checks in {1, 2, 4, 16}, check intervals 30 ms - 3 s "
                     "(some above 1 s so that the offset adjustment is live), retry intervals, max_check_attempts 1-3, 10 % with active checks "
                     "disabled, 10 % with a closed check period, commands that sleep (mean chosen for ~40 % load), return OK / alternate / fail / "
